@@ -721,7 +721,7 @@ def replay(ctx, data):
 # ----------------------------------------------------------------------------------------------- source tie (DESIGN §4.2)
 # the definitions of Gen/DecisionsLib.v this property's Props file ties to the model (`*_generated_eq_model`): when
 # tools/gen/decisions_lib.py could not translate the current source text the tie is broken and reported
-GEN_LIB_TARGETS = ['should_binary_quit']
+GEN_LIB_TARGETS = ['should_binary_quit', 'detect_binary_result']
 _run_checks = run
 
 
